@@ -267,3 +267,25 @@ Proof.
     rewrite Htbl in Htbl'. injection Htbl' as <-. rewrite Hrot in Hrot'. injection Hrot' as <-.
     exact (walks_cert_sound h (write_back h lvl g1') ha strict (LoopPath2.Fu (ua_v a) bv) Hthm Hc).
 Qed.
+
+Lemma uni_col_cases h ha lvl loop headers entries exiting exits doms bnames vnames :
+  let c := uni_col_of h ha lvl loop headers entries exiting exits doms bnames vnames in
+  c = 2 \/ c = 4 \/ c = 5 \/ c = 6.
+Proof.
+  cbv zeta. unfold uni_col_of.
+  destruct (negb (forallb (leafb h) entries)); [auto|].
+  destruct (level_graph h lvl) as [g0|]; [|auto].
+  destruct (uni_step1 g0 loop headers entries bnames vnames) as [a|]; [|auto]. cbv zeta.
+  destruct (is_early (backedge_blocks_of (ua_g1 a) (ua_loop1 a) headers) exiting) as [bb|].
+  - destruct (insert_cb_h h lvl (ua_H a) (ua_v a) entries headers (ua_names_cb a)) as [hA| |]; auto.
+    destruct (walk_pre_cbh h lvl (ua_H a) (ua_v a) entries headers (ua_names_cb a) && orig_keptb h hA); auto.
+    destruct (level_graph hA lvl) as [gA|]; auto. destruct (Z.eqb (early_col hA ha lvl gA (ua_H a) bb) 3); auto.
+  - destruct (ua_bn a) as [|latch bn1]; [auto|].
+    destruct (if match exits with _ :: _ :: _ => true | _ => false end
+              then match bn1 with s :: r => (s, r) | [] => (0, []) end else (0, bn1)) as [sexit bn2].
+    destruct (ua_vn a) as [|bv vr]; [auto|].
+    destruct (head_tbl (ua_g1 a) (ua_H a) (ua_v a) headers) as [tbl|]; [|auto].
+    match goal with |- context [if ?c then _ else _] => destruct c end; [|auto].
+    match goal with |- context [match ?c with Ok _ => _ | _ => _ end] => destruct c end; auto.
+    match goal with |- context [if ?c then _ else _] => destruct c end; auto.
+Qed.
